@@ -37,6 +37,7 @@ type DataFile struct {
 	lastBlockID    uint32                       // 末尾 Block ID
 	lastBlockSize  uint32                       // 末尾 Block 已使用字节数
 	closed         bool                         // 文件关闭标识
+	preallocated   bool                         // 打开时物理大小为内存映射扩展单位的整数倍, 即未经正常关闭
 	headerBuf      []byte                       // chunk 头部复用缓冲区
 	bufferedWrites []*bytebufferpool.ByteBuffer // 批处理缓存数据
 }
@@ -74,6 +75,7 @@ func OpenFile(dirPath string, id FileID, suffix FileSuffix, ioType fio.FileIOTyp
 		lastBlockID:   uint32(size / blockSize),
 		lastBlockSize: uint32(size % blockSize),
 		closed:        false,
+		preallocated:  size > 0 && size%fio.ExtendUnit == 0,
 		headerBuf:     make([]byte, chunkHeaderSize),
 	}, nil
 }
@@ -436,6 +438,11 @@ func (reader *DataReader) next() ([]byte, *DataPos, error) {
 		// 对当前 chunk 解码
 		data, chunkType, err := DecodeChunk(reader.blockBuf[reader.offset:size])
 		if err != nil {
+			// 预分配文件未经正常关闭, 其逻辑末尾未知: 有效数据之后是预分配的零字节
+			// 或一次未完成的写入, 首个无法解码的 chunk 即视为日志的末尾
+			if reader.dataFile.preallocated {
+				return incomplete()
+			}
 			return nil, nil, err
 		}
 		res = append(res, data...)
@@ -464,6 +471,11 @@ func (reader *DataReader) Position() (uint32, uint32) {
 	return reader.blockID, reader.offset
 }
 
+// Preallocated 文件打开时是否仍保持预分配大小, 即上次使用内存映射 IO 时未正常关闭
+func (df *DataFile) Preallocated() bool {
+	return df.preallocated
+}
+
 // TruncateTo 丢弃指定位置之后的全部数据, 后续写入从该位置继续
 func (df *DataFile) TruncateTo(blockID uint32, offset uint32) error {
 	if df.closed {
@@ -473,6 +485,7 @@ func (df *DataFile) TruncateTo(blockID uint32, offset uint32) error {
 		return err
 	}
 	df.lastBlockID, df.lastBlockSize = blockID, offset
+	df.preallocated = false
 	return nil
 }
 
